@@ -154,7 +154,7 @@ def SP(seq):
 
 
 def prelude(o, seq, seed):
-    """2-5 other queries on the object first: every parameter must come out the same on an object with a query history
+    """3-8 other queries on the object first: every parameter must come out the same on an object with a query history
     (stale memo, aliased array, shared default).  Deterministic in the sequence; errors of the prelude calls are ignored."""
     import random as _r
     r = _r.Random(seed)
@@ -166,18 +166,35 @@ def prelude(o, seq, seed):
         o.get_kappa_after_phosphorylation()
         o.get_phosphosequence()
 
-    ops = [o.get_kappa, o.get_deltaMax, o.get_delta, o.get_Omega, o.get_SCD, o.get_FCR, o.get_phasePlotRegion,
-           o.get_isoelectric_point, o.get_amino_acid_fractions, o.get_molecular_weight, o.get_mean_hydropathy,
-           o.get_uversky_hydropathy, o.get_countPos, o.get_fraction_disorder_promoting,
-           lambda: o.get_NCPR(7.0), lambda: o.get_FCR(4.0), lambda: o.get_linear_NCPR(min(n, 5)),
-           lambda: o.get_linear_sequence_composition(min(n, 4)), lambda: o.get_linear_hydropathy(min(n, 3)),
-           lambda: o.get_kappa_X(['E', 'D'], ['K', 'R']), lambda: o.get_kappa_X(['D', 'E', 'K', 'R']),
-           lambda: o.get_reduced_alphabet_sequence(8), lambda: o.get_linear_complexity(blobLen=min(n, 5)),
-           lambda: o.get_PPII_propensity(mode='hilser'), lambda: o.get_PPII_propensity(mode='kallenbach'),
-           lambda: o.get_deltaMax(True), phos, phos]
-    if n > 60:      # the charge-patterning searches are slow on long chains: cheap queries only
-        ops = ops[7:20] + ops[23:27]
-    for f in r.sample(ops, r.randint(2, 5)):
+    def moves():
+        # the sampler's moves return NEW Sequence objects; the parent must stay as it was
+        so = o.SeqObj
+        cls = [1 if c in 'KR' else -1 if c in 'DE' else 0 for c in seq.upper()]
+        pairs = [(i, j) for i in range(n) for j in range(i + 1, n) if cls[i] != cls[j]][:200]
+        if pairs:
+            i, j = r.choice(pairs)
+            so.swapRes(i, j)
+            so.swapRes(j, i)
+        so.full_shuffle()
+        so.swapRandChargeRes()
+
+    w = lambda k: min(n, k)
+    slow = [o.get_kappa, o.get_deltaMax, o.get_delta, o.get_Omega, lambda: o.get_deltaMax(True),
+            lambda: o.get_kappa_X(['E', 'D'], ['K', 'R']), lambda: o.get_kappa_X(['D', 'E', 'K', 'R']), phos, phos]
+    cheap = [o.get_SCD, o.get_FCR, o.get_NCPR, o.get_phasePlotRegion, o.get_isoelectric_point, o.get_amino_acid_fractions,
+             o.get_molecular_weight, o.get_mean_hydropathy, o.get_uversky_hydropathy, o.get_WW_hydropathy, o.get_countPos,
+             o.get_countNeg, o.get_countNeut, o.get_fraction_positive, o.get_fraction_negative, o.get_mean_net_charge,
+             o.get_fraction_disorder_promoting, o.get_fraction_expanding, o.get_Omega_sequence, o.get_sequence, o.get_length,
+             o.get_HTMLColorString, o.get_all_phosphorylatable_sites, o.get_phosphosites, o.get_PPII_propensity,
+             lambda: o.get_NCPR(7.0), lambda: o.get_FCR(4.0), lambda: o.get_fraction_expanding(6.0),
+             lambda: o.get_linear_NCPR(w(5)), lambda: o.get_linear_FCR(w(5)), lambda: o.get_linear_sigma(w(6)),
+             lambda: o.get_linear_FCR(w(2)), lambda: o.get_linear_hydropathy(w(3)),
+             lambda: o.get_linear_sequence_composition(w(4)), lambda: o.get_linear_sequence_composition(w(4), [['E', 'D'], ['P']]),
+             lambda: o.get_reduced_alphabet_sequence(8), lambda: o.get_linear_complexity(blobLen=w(5)),
+             lambda: o.get_linear_complexity(complexityType='LC', blobLen=w(4)),
+             lambda: o.get_PPII_propensity(mode='hilser'), lambda: o.get_PPII_propensity(mode='kallenbach'), moves, moves]
+    ops = cheap if n > 60 else cheap + slow + slow      # the charge-patterning searches are slow on long chains
+    for f in r.sample(ops, r.randint(3, 8)):
         try:
             f()
         except Exception:
